@@ -374,19 +374,28 @@ public:
   virtual void backward_assign(const variable_t &x,
                                const linear_expression_t &e,
                                const powerset_domain_t &invariant) override {
-    CRAB_WARN(domain_name(), " does not implement backward operations");
+    // No inverse operations are implemented: x can be anything before
+    // the assignment.
+    this->operator-=(x);
+    *this = *this & invariant;
   }
 
   virtual void backward_apply(arith_operation_t op, const variable_t &x,
                               const variable_t &y, number_t k,
                               const powerset_domain_t &invariant) override {
-    CRAB_WARN(domain_name(), " does not implement backward operations");
+    // No inverse operations are implemented: x can be anything before
+    // the assignment.
+    this->operator-=(x);
+    *this = *this & invariant;
   }
 
   virtual void backward_apply(arith_operation_t op, const variable_t &x,
                               const variable_t &y, const variable_t &z,
                               const powerset_domain_t &invariant) override {
-    CRAB_WARN(domain_name(), " does not implement backward operations");
+    // No inverse operations are implemented: x can be anything before
+    // the assignment.
+    this->operator-=(x);
+    *this = *this & invariant;
   }
 
   virtual void operator+=(const linear_constraint_system_t &csts) override {
